@@ -1,28 +1,16 @@
 (* C13 - Parsers reject bad input only with the documented format error.
-   This file: the tie of the models to the current source - the raising-site layout regenerated from /repo
-   (Gen/C13_ExcSpec.v) is the one the models account for (Model/C13_Sites.v).  The property itself is stated per format in
-   Props/C13_Xyz.v, C13_Pdffit.v, C13_Discus.v, C13_Xcfg.v, C13_Pdb.v, C13_Cif.v (each depends only on its own model and
-   proof, so a change in one parser does not disturb the others) and the satisfiability instances in Props/C13_Examples.v.
-
-   Each `only_documented_<fmt>` says: for EVERY list of lines (every string, for cif), whatever the tokeniser and the number /
-   geometry primitives answer within their declared exception kinds, the model of parseLines returns a value or raises
-   StructureFormatError / NotImplementedError - nothing else.  The except clauses are those of Gen/C13_ExcSpec.v. *)
-From Coq Require Import List String.
-From DS Require Import Base.C13_Exn Gen.C13_ExcSpec Model.C13_Sites.
+   The property is stated per format in Props/C13_Xyz.v, C13_Pdffit.v, C13_Discus.v, C13_Xcfg.v, C13_Pdb.v, C13_Cif.v
+   (`only_documented_<fmt>`: for EVERY list of lines, whatever the tokeniser and the number / geometry primitives answer within their
+   declared exception kinds, the model of parseLines returns a value or raises StructureFormatError / NotImplementedError), the ties of
+   each model to the current source in Props/C13_Tie_<Fmt>.v (site layout, guards, callee raise inventory), the satisfiability
+   instances in Props/C13_Examples.v.  Each file depends only on its own format, so a change in one parser does not disturb the
+   others.  This file states the format-independent core of the argument. *)
+From Coq Require Import List.
+From DS Require Import Base.C13_Exn Proofs.C13_ExnLemmas.
 Import ListNotations.
 
-Theorem C13_sites_xyz : xyz_sites = xyz_sites_expected.
-Proof. exact eq_refl. Qed.
-Theorem C13_sites_rawxyz : rawxyz_sites = rawxyz_sites_expected.
-Proof. exact eq_refl. Qed.
-Theorem C13_sites_pdffit : pdffit_sites = pdffit_sites_expected.
-Proof. exact eq_refl. Qed.
-Theorem C13_sites_discus : discus_sites = discus_sites_expected.
-Proof. exact eq_refl. Qed.
-Theorem C13_sites_pdb : pdb_sites = pdb_sites_expected.
-Proof. exact eq_refl. Qed.
-Theorem C13_sites_xcfg : xcfg_sites = xcfg_sites_expected.
-Proof. exact eq_refl. Qed.
-Theorem C13_sites_cif : cif_sites = cif_sites_expected.
-Proof. exact eq_refl. Qed.
-
+(* a body whose possible kinds are all either caught by a clause that re-raises the format error, or documented, is documented *)
+Theorem C13_try_catch_documented : forall A ks caught (m : res A),
+  within ks m -> handled ks caught documented_kinds = true -> documented (try_catch m caught (fun _ => Raise FormatError)).
+Proof. exact try_catch_documented. Qed.
+Print Assumptions C13_try_catch_documented.
